@@ -385,6 +385,8 @@ pub struct PolicyLayer {
     pub rec: Recorder,
     /// method name -> policy; "*" = default
     pub table: BTreeMap<String, Policy>,
+    /// behave like a UAS: responses above 100 to a request without To-tag get one (`uas<index>`)
+    pub tag_responses: bool,
 }
 
 impl PolicyLayer {
@@ -422,11 +424,17 @@ impl Layer for PolicyLayer {
                     return;
                 }
                 let endpoint = endpoint.clone();
+                let (tag, index) = (self.tag_responses, self.index);
                 let fut = async move {
                     if delay_ms > 0 {
                         tokio::time::sleep(Duration::from_millis(delay_ms)).await;
                     }
-                    let response = endpoint.create_response(&req, Code::from(code), None);
+                    let mut response = endpoint.create_response(&req, Code::from(code), None);
+                    if tag && code > 100 && req.base_headers.to.tag.is_none() {
+                        let _ = response.msg.headers.edit(sip_types::Name::TO, |to: &mut sip_types::header::typed::FromTo| {
+                            to.tag = Some(format!("uas{index}").into());
+                        });
+                    }
                     if method == "INVITE" {
                         let tsx = endpoint.create_server_inv_tsx(&mut req);
                         if (200..300).contains(&code) {
